@@ -278,7 +278,7 @@ def lemma_cwr_zero(p: int):
     unfold(binom(p - 1, p))
 
 
-@contract("mchap.jitutils.index_as_genotype_alleles", machine_ints=True, props=["C11"])
+@contract("mchap.jitutils.index_as_genotype_alleles", machine_ints=True, props=["C11"], dead_branches=["if index < 0 @0 then"])
 def index_as_genotype_alleles(index: int, ploidy: int) -> A[i8, 1]:
     requires(0 <= index, index < 2 ** 53)
     requires(1 <= ploidy, ploidy <= 255)  # side condition of the overflow proof of the last probe
